@@ -30,15 +30,69 @@ func main() {
 	maxCalls := flag.Int("calls", 64, "largest number of concurrent calls")
 	workers := flag.Int("workers", 8, "connections exercised in parallel")
 	chunkStep := flag.Int("chunkstep", 1, "stride of the second cut in the exhaustive two-cut chunk schedules (1 = every pair of offsets)")
+	nDepth := flag.Int("depth", 72, "long-lived unit cases: k messages read under a MaxDepth (model-compared)")
+	llSeq := flag.Int("llseq", 300, "sequential calls per long-lived connection")
+	llConc := flag.Int("llconc", 208, "concurrent calls (batches of 16) per long-lived connection")
 	dl := flag.Int("deadline", 8, "seconds before a run counts as hung")
 	cases := flag.String("cases", "/verif/build/c18/cases", "directory for the model case files")
 	flag.Parse()
 	deadline = time.Duration(*dl) * time.Second
 	seed := vh.SeedFromEnv()
 	r := vh.NewRng(seed)
-	sum := vh.NewSummary("unit: codec (GoRpc x 5 formats, MsgpackSpecRpc) x ReaderBufferSize x WriterBufferSize in {0,1,7,64,4096} x request/response x 1..4 frames x chunk schedule (coalesced, single bytes, random, one frame plus the head of the next, mixed) x whole/cut stream; non-trivial = more than one frame, a fragmenting schedule or a cut; distinct by all of these. chunk: three short frames per codec x rbs in {0,1,64} x direction under every schedule [a, b, rest] (direct oracle; distinct by codec, rbs, direction). rpc: the same codecs (plus GoRpc/binc with AsSymbols=1, whose symbol tables span frames) and buffer grid x transport (net.Pipe, fragmenting/coalescing pipe in 4 modes, TCP loopback, the documented bufio-wrapped connection) x N in 1..64 concurrent calls (Echo struct, Add, Str, Fail) + Close protocol; distinct by (codec, transport, rbs, wbs, N). close: Close unblocks a pending header read, per codec x transport")
+	sum := vh.NewSummary("unit: codec (GoRpc x 5 formats, MsgpackSpecRpc) x ReaderBufferSize x WriterBufferSize in {0,1,7,64,4096} x request/response x 1..4 frames x chunk schedule (coalesced, single bytes, random, one frame plus the head of the next, mixed) x whole/cut stream; non-trivial = more than one frame, a fragmenting schedule or a cut; distinct by all of these. chunk: three short frames per codec x rbs in {0,1,64} x direction under every schedule [a, b, rest] (direct oracle; distinct by codec, rbs, direction). depth: 20..80 (default MaxDepth: >1030) messages written back to back and read by one codec under MaxDepth in {default,2,3,4,5,8}, first failing message compared with the model (distinct by codec, MaxDepth, direction, limit reached). longlived: one real net/rpc connection per codec x transport x rbs with MaxDepth 8 (and the default with 1100 calls), several hundred sequential then concurrent calls, every reply and server error matched. rpc: the same codecs (plus GoRpc/binc with AsSymbols=1, whose symbol tables span frames) and buffer grid x transport (net.Pipe, fragmenting/coalescing pipe in 4 modes, TCP loopback, the documented bufio-wrapped connection) x N in 1..64 concurrent calls (Echo struct, Add, Str, Fail) + Close protocol; distinct by (codec, transport, rbs, wbs, N). close: Close unblocks a pending header read, per codec x transport")
 	unitStream(r.Fork(), *nUnit, *cases, sum)
 	chunkStream(r.Fork(), *chunkStep, sum)
+	depthUnit(r.Fork(), *nDepth, *cases, sum)
+
+	// ---- long-lived connections ----
+	{
+		lr := r.Fork()
+		type llcfg struct {
+			cfg        rpcConfig
+			md, sq, cc int
+		}
+		var lls []llcfg
+		for _, c := range append(append([]string{}, codecNames...), "go-binc-sym") {
+			for _, t := range []string{"pipe", "frag-coalesce", "tcp"} {
+				for _, rbs := range []int{0, 64} {
+					lls = append(lls, llcfg{rpcConfig{codec: c, transport: t, rbs: rbs, wbs: rbs, seed: lr.U64() >> 1}, 8, *llSeq, *llConc})
+				}
+			}
+			// the default MaxDepth: more messages than it has levels
+			lls = append(lls, llcfg{rpcConfig{codec: c, transport: "pipe", rbs: 0, wbs: 0, seed: lr.U64() >> 1}, 0, 1100, 64})
+		}
+		type llres struct {
+			fails []vh.Failure
+			done  int
+		}
+		out := make([]llres, len(lls))
+		var lwg sync.WaitGroup
+		lch := make(chan int)
+		for w := 0; w < *workers; w++ {
+			lwg.Add(1)
+			go func() {
+				defer lwg.Done()
+				for i := range lch {
+					f, d := longLived(lls[i].cfg, lls[i].md, lls[i].sq, lls[i].cc)
+					out[i] = llres{f, d}
+				}
+			}()
+		}
+		for i := range lls {
+			lch <- i
+		}
+		close(lch)
+		lwg.Wait()
+		for i, o := range out {
+			for _, f := range o.fails {
+				sum.FailC(f.Stream, f.Class, f.What, f.Case)
+			}
+			c := lls[i]
+			sum.Count("longlived."+c.cfg.codec, fmt.Sprintf("ll/%s/%s/r%d/m%d", c.cfg.codec, c.cfg.transport, c.cfg.rbs, c.md))
+			sum.Evaluations += o.done
+			sum.Dist["longlived.calls"] += o.done
+		}
+	}
 
 	// ---- rpc grid ----
 	bufs := []int{0, 1, 7, 64, 4096}
